@@ -439,11 +439,63 @@ def footprint_cases(draw):
     return case
 
 
+DETCAT_COLS = ['xcentroid', 'ycentroid', 'bbox_xmin', 'bbox_xmax', 'bbox_ymin',
+               'bbox_ymax', 'segment_area', 'area', 'equivalent_radius',
+               'semimajor_sigma', 'semiminor_sigma', 'orientation',
+               'eccentricity', 'elongation', 'ellipticity', 'fwhm',
+               'covar_sigx2', 'covar_sigy2', 'covar_sigxy', 'cxx', 'cyy', 'cxy',
+               'kron_radius', 'xcentroid_quad', 'ycentroid_quad']
+
+
+def check_detection_cat(case, ctx):
+    """With detection_cat, shape/centroid columns equal the detection
+    catalog's; fluxes are measured on the new data over the same pixels."""
+    from photutils.segmentation import SegmentationImage, SourceCatalog
+    data, seg, mask, error, bkg, conv = _inputs(case)
+    if not seg.any():
+        return
+    rng = np.random.default_rng(case['aux_seed'] + 7)
+    data2 = np.where(np.isfinite(data), data, 0.0) * 0.5 + rng.normal(0, 0.5, data.shape)
+    labels = [int(l) for l in np.unique(seg[seg > 0])]
+    with warnings.catch_warnings():
+        warnings.simplefilter('ignore')
+        det = SourceCatalog(data, SegmentationImage(seg.copy()), mask=mask,
+                            convolved_data=conv)
+        cat = SourceCatalog(data2, SegmentationImage(seg.copy()), mask=mask,
+                            error=error, detection_cat=det)
+        ref = SourceCatalog(data, SegmentationImage(seg.copy()), mask=mask,
+                            convolved_data=conv)
+        ctx.mark(len(labels) >= 2)
+        for k, l in enumerate(labels):
+            for c in DETCAT_COLS:
+                a, b = _val(cat, c, k), _val(ref, c, k)
+                if not (a == b or (math.isnan(a) and math.isnan(b))):
+                    raise Violation('detection_cat_column',
+                                    f'label {l}: {c} = {a!r} with detection_cat, '
+                                    f'{b!r} in the detection catalog', column=c)
+            # fluxes on the new data over the detection pixel set: the data
+            # mask of the detection image defines the unmasked pixels
+            S = (seg == l) & np.isfinite(data2)
+            if mask is not None:
+                S &= ~mask
+            exp = float(data2[S].sum()) if S.any() else float('nan')
+            got = _val(cat, 'segment_flux', k)
+            if S.any() and not close(got, exp, 1e-9, 1e-9 * float(np.abs(data2[S]).sum())):
+                if np.isfinite(data[seg == l]).all():
+                    raise Violation('detection_cat_flux',
+                                    f'label {l}: segment_flux {got!r} vs direct '
+                                    f'sum on the new data {exp!r}', column='segment_flux')
+
+
 SUBCHECKS = [
     SubCheck('direct', direct_cases(), check_direct,
              'non-trivial = >=2 labels with overlapping bounding boxes, or a '
              'masked / non-finite pixel inside a segment',
              quick=(16, 400), thorough=(16, 6000)),
+    SubCheck('detection_cat', direct_cases(), check_detection_cat,
+             'non-trivial = >=2 labels; shape/centroid columns must equal the '
+             'detection catalog\'s, fluxes come from the new data',
+             quick=(8, 120), thorough=(16, 2000)),
     SubCheck('footprint', footprint_cases(), check_footprint,
              'non-trivial = >=2 labels (rows compared under outside-footprint '
              'changes, label renumbering and subsetting)',
